@@ -256,6 +256,94 @@ theorem scan_val (v : ValLine) (h : wfVal v = true) (hne : v.entries ≠ []) : s
   simp only [hs, hc, hp]
   rw [hr]; simp
 
+theorem dropWhile_append_stop (p : Char → Bool) (u v : Str) (c : Char) (hv : v.head? = some c) (hc : p c = false) :
+    (u ++ v).dropWhile p = u.dropWhile p ++ v := by
+  induction u with
+  | nil =>
+    cases v with
+    | nil => simp at hv
+    | cons x t => simp at hv; subst hv; simp [hc]
+  | cons a u ih =>
+    by_cases ha : p a = true
+    · simp [ha, ih]
+    · simp [ha]
+
+/-- a head that begins and ends with a non-blank character is kept by `strip()`; only the end of the body is stripped -/
+theorem stripWs_head_body (a b : Str) (x y : Char) (hx : a.head? = some x) (hy : a.getLast? = some y)
+    (hxw : isWs x = false) (hyw : isWs y = false) : stripWs (a ++ b) = a ++ rstripWs b := by
+  unfold stripWs rstripWs
+  have e1 : (a ++ b).dropWhile isWs = a ++ b := by
+    cases a with
+    | nil => simp at hx
+    | cons c t => simp at hx; subst hx; simp [hxw]
+  rw [e1, List.reverse_append]
+  have hh : a.reverse.head? = some y := by rw [List.head?_reverse]; exact hy
+  rw [dropWhile_append_stop isWs b.reverse a.reverse y hh hyw]
+  simp
+
+
+/-! ## `BU_:` -/
+
+theorem lit_bu : "BU_: ".toList = ['B', 'U', '_', ':', ' '] := by decide
+
+theorem renderBu_shift (names : List Str) :
+    (' ' :: names.flatMap fun n => n ++ [' ']) = (names.flatMap fun n => ' ' :: n) ++ [' '] := by
+  induction names with
+  | nil => rfl
+  | cons n r ih =>
+    have : n ++ ' ' :: (r.flatMap fun n => n ++ [' ']) = n ++ ((r.flatMap fun n => ' ' :: n) ++ [' ']) := by rw [ih]
+    simp only [List.flatMap_cons, List.append_assoc, List.cons_append, List.nil_append, List.singleton_append]
+    rw [this]
+
+theorem lastOK_members (names : List Str) (hne : names ≠ []) (h : ∀ n ∈ names, isIdent n = true) :
+    LastOK (names.flatMap fun n => ' ' :: n) := by
+  induction names with
+  | nil => exact absurd rfl hne
+  | cons n r ih =>
+    simp only [List.flatMap_cons]
+    cases r with
+    | nil => simp only [List.flatMap_nil, List.append_nil]; exact LastOK.cons ' ' (LastOK.of_isIdent (h n (by simp)))
+    | cons m r' => exact LastOK.append _ (ih (by simp) (fun x hx => h x (List.mem_cons_of_mem _ hx)))
+
+theorem stripWs_renderBu (names : List Str) (h : ∀ n ∈ names, isIdent n = true) :
+    stripWs (renderBu names) = 'B' :: 'U' :: '_' :: ':' :: (names.flatMap fun n => ' ' :: n) := by
+  unfold renderBu
+  rw [lit_bu]
+  simp only [List.cons_append, List.nil_append]
+  rw [renderBu_shift]
+  have e : 'B' :: 'U' :: '_' :: ':' :: ((names.flatMap fun n => ' ' :: n) ++ [' ']) =
+      ('B' :: 'U' :: '_' :: ':' :: (names.flatMap fun n => ' ' :: n)) ++ [' '] := by simp
+  rw [e]
+  cases names with
+  | nil => decide
+  | cons n r =>
+    obtain ⟨c, hc, hi⟩ := (lastOK_members (n :: r) (by simp) h).cons ':' |>.cons '_' |>.cons 'U' |>.cons 'B'
+    rw [stripWs_head_body _ _ 'B' c rfl hc (by decide) (identChar_not_ws hi)]
+    simp [rstripWs, isWs]
+
+theorem scan_bu (names : List Str) (h : ∀ n ∈ names, isIdent n = true ∧ n.length ≥ 2) :
+    scanLine (renderBu names) = .item (.bu names) := by
+  have hid : ∀ n ∈ names, isIdent n = true := fun n hn => (h n hn).1
+  have hs := stripWs_renderBu names hid
+  have hc : classify (renderBu names) = .bu := by
+    unfold classify; rw [hs]; simp [startsWith, cmClass]
+  unfold scanLine
+  simp only [hs, hc]
+  simp only [List.isEmpty_cons, Bool.false_eq_true, if_false]
+  congr 2
+  unfold parseBu splitRaw
+  simp only [List.drop_succ_cons, List.drop_zero]
+  rw [TableProofs.splitRaw_go_members names [] (fun m hm c hc => identChar_ne_space (isIdent_all (hid m hm) c hc))]
+  simp only [List.reverse_nil, List.filter_cons]
+  have hnil : ((stripWs ([] : Str)).length > 1) = False := by simp [stripWs]
+  simp only [show decide ((stripWs ([] : Str)).length > 1) = false by decide, Bool.false_eq_true, if_false]
+  apply List.filter_eq_self.mpr
+  intro n hn
+  rw [stripWs_ident (hid n hn)]
+  have := (h n hn).2
+  simp only [gt_iff_lt, decide_eq_true_eq]
+  omega
+
 /-! ## the file as a fold of effects -/
 
 theorem addDefine_pending (m : RMatrix) (d : DefLine) : (addDefine m d).pending = m.pending := by
@@ -307,6 +395,9 @@ theorem scan_stmt (s : Stmt) (h : s.wf = true) :
   | mul m =>
     simp only [Stmt.wf, Bool.and_eq_true, Bool.not_eq_true', List.isEmpty_eq_false_iff] at h
     exact scan_mul m h.1 h.2
+  | bu names =>
+    simp only [Stmt.wf, List.all_eq_true, Bool.and_eq_true, decide_eq_true_eq] at h
+    exact scan_bu names h
 
 theorem step_stmt (m : RMatrix) (s : Stmt) (hm : m.pending = none) (h : s.wf = true) :
     stepFile m s.line = applyStmt m s := by
@@ -559,31 +650,6 @@ theorem pending_lines (m : RMatrix) (tgt : CmTarget) (mid : List Str) (last acc 
       simp only [hmid l (by simp), unescape_escape, Bool.false_eq_true, if_false]
     rw [hstep, ih _ (fun x hx => hmid x (List.mem_cons_of_mem _ hx)), joinLines_cons l _ (by simp)]
     simp
-
-theorem dropWhile_append_stop (p : Char → Bool) (u v : Str) (c : Char) (hv : v.head? = some c) (hc : p c = false) :
-    (u ++ v).dropWhile p = u.dropWhile p ++ v := by
-  induction u with
-  | nil =>
-    cases v with
-    | nil => simp at hv
-    | cons x t => simp at hv; subst hv; simp [hc]
-  | cons a u ih =>
-    by_cases ha : p a = true
-    · simp [ha, ih]
-    · simp [ha]
-
-/-- a head that begins and ends with a non-blank character is kept by `strip()`; only the end of the body is stripped -/
-theorem stripWs_head_body (a b : Str) (x y : Char) (hx : a.head? = some x) (hy : a.getLast? = some y)
-    (hxw : isWs x = false) (hyw : isWs y = false) : stripWs (a ++ b) = a ++ rstripWs b := by
-  unfold stripWs rstripWs
-  have e1 : (a ++ b).dropWhile isWs = a ++ b := by
-    cases a with
-    | nil => simp at hx
-    | cons c t => simp at hx; subst hx; simp [hxw]
-  rw [e1, List.reverse_append]
-  have hh : a.reverse.head? = some y := by rw [List.head?_reverse]; exact hy
-  rw [dropWhile_append_stop isWs b.reverse a.reverse y hh hyw]
-  simp
 
 theorem lit_cm_bo : "CM_ BO_ ".toList = ['C', 'M', '_', ' ', 'B', 'O', '_', ' '] := by decide
 theorem lit_cm_sg : "CM_ SG_ ".toList = ['C', 'M', '_', ' ', 'S', 'G', '_', ' '] := by decide
